@@ -178,6 +178,9 @@ Step(kind, w, o, w2, r) ==
   \* C20: no item object lives in two instances
   \* (unless the caller itself put the same item objects into two blocks: o.share_ok)
   \cup If(~o.share_ok /\ \E p, q \in DOMAIN w2 : p # q /\ Ids(w2[p]) \cap Ids(w2[q]) # {}, "C20:instances_share_items")
+  \* C16 for every block, not only the one the call was made on (an item can arrive through a
+  \* container that two blocks share)
+  \cup If(kind \in LengthKinds /\ \E p \in DOMAIN w2 : w2[p].ex /\ ~w2[p].lenok, "C16:wrong_length_item_present")
   \cup If(o.op \in {"lookup", "encode"} /\ w2 # w, IF o.op = "lookup" THEN "C18:lookup_changed_block" ELSE "C20:encode_changed_block")
   \cup (IF o.op = "decode" THEN StateClauses(kind, NoInst, w2[o.j]) ELSE StateClauses(kind, a, b))
   \cup (CASE o.op = "construct" ->
@@ -216,5 +219,9 @@ Step(kind, w, o, w2, r) ==
                                                 b.items[k].label # w[o.j].items[k].label), "C20:assign_from")
           \* the harness changes a list it handed to the block earlier: no block may notice
           [] o.op = "poke"        -> If(w2 # w, "C20:caller_list_aliased")
+          \* the calls made on block i since its construction were made again, alone, on a new block:
+          \* it must end up with the same labels, channels and auxiliary data - what a block becomes
+          \* depends on its own history only, not on what other blocks went through meanwhile
+          [] o.op = "solo"        -> If(~o.same, "C20:depends_on_other_instances")
           [] OTHER -> {})
 =============================================================================
